@@ -1,3 +1,68 @@
-From Cache Require Import Base Failover.
-Theorem C06_placeholder : True. Proof. exact I. Qed.
-Print Assumptions C06_placeholder.
+(* C06 — TTL and context travel through Failover as documented.
+
+   Model: theories/Failover.v (TTL cell of the caller's context, builder updates as an oracle list,
+   refresh write in a context of its own); proofs: theories/FailoverTTL.v. What the model cannot carry
+   (cancellation and deadline of the detached background context, context values) is observed by the
+   correspondence run only: see the level note of the check. *)
+From Cache Require Import Base Failover FailoverProofs FailoverProv FailoverTTL.
+
+(* WithTTL(ctx, ttl, true) repeated: the cell ends up 0 iff everything was 0, otherwise it holds one of
+   the communicated values, the smallest non-zero one (negative values included) *)
+Theorem C06_builder_ttls_minimal_nonzero : forall upd c,
+  (fold_left upd_cell upd c = 0 <-> c = 0 /\ Forall (fun x => x = 0) upd) /\
+  (fold_left upd_cell upd c <> 0 ->
+     fold_left upd_cell upd c ∈ c :: upd /\ Forall (fun x => x = 0 \/ fold_left upd_cell upd c <= x) (c :: upd)).
+Proof. exact fold_upd_spec. Qed.
+Print Assumptions C06_builder_ttls_minimal_nonzero.
+
+(* the cell of a Get changes only when its builder returns, by exactly the builder's updates; every
+   other step of the Get (the stale re-store included) and every step of other Gets leave it alone;
+   the background build starts with the caller's cell, key and SkipRead flag *)
+Theorem C06_cell_changes_only_in_builder : forall fe nilb c s t o s' th,
+  threads s !! t = Some th -> fstep fe nilb c s (LStep t o) = Some s' ->
+  exists th', threads s' !! t = Some th' /\
+    t_cell th' = (if decide (t_pc th = PBuilderExit) then apply_upd (t_cell th) (o_upd o) else t_cell th) /\
+    (forall bg, threads s' !! bg_tid t = Some bg -> threads s !! bg_tid t = None ->
+                t_cell bg = t_cell th /\ t_key bg = t_key th /\ t_skip bg = t_skip th).
+Proof. exact cell_changes_only_in_builder. Qed.
+Print Assumptions C06_cell_changes_only_in_builder.
+
+Theorem C06_other_gets_do_not_touch_the_cell : forall fe nilb c s t o s' t1 th1,
+  threads s !! t1 = Some th1 -> t1 <> t -> fstep fe nilb c s (LStep t o) = Some s' -> threads s' !! t1 = Some th1.
+Proof. exact cell_frame. Qed.
+Print Assumptions C06_other_gets_do_not_touch_the_cell.
+
+(* every write to the backend is either the final store, with the TTL of the cell (0 = backend default),
+   or the temporary re-store of the stale value, with UpdateTTL *)
+Theorem C06_store_ttls : forall fe nilb c s t o s' th,
+  threads s !! t = Some th -> fstep fe nilb c s (LStep t o) = Some s' ->
+  (t_pc th = PBuildWrite -> exists res, flog s' = flog s ++ [FWrite t (t_key th) (t_res th).1 (cell_ttl (t_cell th)) false res]) /\
+  (t_pc th = PRefreshWrite -> exists res, flog s' = flog s ++ [FWrite t (t_key th) (t_value th) (f_update_ttl c) true res]) /\
+  (forall k v ttl r res, FWrite t k v ttl r res ∈ flog s' -> FWrite t k v ttl r res ∈ flog s \/
+      (r = false /\ t_pc th = PBuildWrite /\ ttl = cell_ttl (t_cell th)) \/
+      (r = true /\ t_pc th = PRefreshWrite /\ ttl = f_update_ttl c)).
+Proof. exact store_ttls. Qed.
+Print Assumptions C06_store_ttls.
+
+(* no TTL in the caller's context: the builder's WithTTL creates a value of its own (interpretation O3) *)
+Theorem C06_no_cell_nothing_to_update : forall upd, apply_upd None upd = None.
+Proof. exact apply_upd_none. Qed.
+Print Assumptions C06_no_cell_nothing_to_update.
+
+(* SkipRead forces the rebuild (the backend answers ErrNotFound, the failure cache is bypassed) and the
+   result is stored all the same *)
+Theorem C06_skip_still_stores : forall fe nilb c s t o s' th v,
+  threads s !! t = Some th -> t_pc th = PBuilderExit -> o_built o = inl v -> fstep fe nilb c s (LStep t o) = Some s' ->
+  exists th', threads s' !! t = Some th' /\ t_pc th' = PBuildWrite /\ t_res th' = (v, None) /\ t_skip th' = t_skip th.
+Proof. exact skip_still_stores. Qed.
+Print Assumptions C06_skip_still_stores.
+
+(* non-vacuity: caller TTL 100, the builder communicates 0, 300, 40, 70: the value is stored with 40 *)
+Example C06_lowered :
+  let o := mkOrc 10 RMiss None (inl 7) [0; 300; 40; 70] 0 in
+  let c := mkFcfg Generic false false false 0 20 60 false false false in
+  match frun_x c f0 (LSpawn 1%N [1%N] false (Some 100) :: replicate 11 (LStep 1%N o)) with
+  | Some s => omap (fun e => match e with FWrite _ _ v ttl r _ => Some (v, ttl, r) | _ => None end) (flog s)
+  | None => []
+  end = [(7, 40, false)].
+Proof. vm_compute. reflexivity. Qed.
